@@ -12,7 +12,7 @@ open Spec (A AMod)
 /-! ## uids of the abstract table -/
 
 /-- no table entry beyond the uids handed out -/
-theorem sim_fresh {cfg : Cfg} {a : A} {s : State} (hs : Sim cfg a s) (u : Nat) (hu : s.nextUid < u) : s.find u = none := by
+theorem sim_fresh {cfg : Cfg} {a : A} {s : State} (hs : SimM cfg a s) (u : Nat) (hu : s.nextUid < u) : s.find u = none := by
   cases hf : s.find u with
   | none => rfl
   | some m =>
@@ -54,7 +54,7 @@ theorem checkInfos_core {cfg : Cfg} {X : A} {base s0 s2 : State} {E : Nat → Pr
 
 /-- **`checkInfos` passes.**  `a` simulates `base`; every CLIENT_INFO frame among the events describes a module as the
 table of `base` has it (`InfoTo`), frames about connections in `E` excepted — and those are not connected in `a`. -/
-theorem checkInfos_pass {cfg : Cfg} {a X : A} {base s0 s2 : State} {E : Nat → Prop} (hs : Sim cfg a base)
+theorem checkInfos_pass {cfg : Cfg} {a X : A} {base s0 s2 : State} {E : Nat → Prop} (hs : SimM cfg a base)
     (hi : InfoTo base E s0 s2) (evs : List Ev) (he : s2.out = s0.out ++ evs)
     (hE : ∀ v am, E v → a.get v = some am → am.connected = false) (hX : X.mods = a.mods) :
     Spec.checkInfos X evs = X := by
@@ -75,7 +75,7 @@ theorem checkInfos_pass {cfg : Cfg} {a X : A} {base s0 s2 : State} {E : Nat → 
 /-- `x`: the abstract state `checkAcks` is evaluated on; `b`: an abstract state that simulates the model state `sL` in
 which `send_ack` runs; every live entry of `b` is a live entry of `x`, and a live entry of `x` whose connection does not
 fail is still live in `b` (only failing connections were dropped in between). -/
-theorem checkAcks_via (cfg : Cfg) (hperm : OrdPerm cfg) {x b : A} {sL : State} (hs : Sim cfg b sL) (ao : AllOpen sL)
+theorem checkAcks_via (cfg : Cfg) (hperm : OrdPerm cfg) {x b : A} {sL : State} (hs : SimM cfg b sL) (ao : AllOpen sL)
     (u : Nat) (hu0 : u ≠ 0) (xu : AMod) (hxu : x.live u = some xu) (hfail : x.fail = sL.fail) {n : Nat}
     (hxuids : x.mods.map (·.uid) = (List.range n).map (· + 1))
     (H1 : ∀ v bl, b.live v = some bl → x.live v = some bl)
@@ -186,9 +186,9 @@ theorem contains_all {cfg : Cfg} {am : AMod} {m : Module} (h : SimMod cfg am m) 
     simpa using this
 
 theorem simMod_add {cfg : Cfg} {am : AMod} {m : Module} (t : Int) (h : SimMod cfg am m) :
-    SimMod cfg (Spec.subUpd cfg t true am) { m with subs := addSubsOf cfg t m.subs } := by
+    SimMod cfg (Spec.subUpdA cfg t true am) { m with subs := addSubsOf cfg t m.subs } := by
   have hca := contains_all h
-  unfold Spec.subUpd addSubsOf
+  unfold Spec.subUpdA addSubsOf
   by_cases ht : (t == cfg.allTypes) = true
   · have : t = cfg.allTypes := by simpa using ht
     simp only [ht, if_true]
@@ -210,9 +210,9 @@ theorem simMod_add {cfg : Cfg} {am : AMod} {m : Module} (t : Int) (h : SimMod cf
         · simp at h1; exact ht (by simp [h1])
 
 theorem simMod_rm {cfg : Cfg} {am : AMod} {m : Module} (t : Int) (h : SimMod cfg am m) :
-    SimMod cfg (Spec.subUpd cfg t false am) { m with subs := rmSubsOf cfg t m.subs } := by
+    SimMod cfg (Spec.subUpdA cfg t false am) { m with subs := rmSubsOf cfg t m.subs } := by
   have hca := contains_all h
-  unfold Spec.subUpd rmSubsOf
+  unfold Spec.subUpdA rmSubsOf
   by_cases ht : (t == cfg.allTypes) = true
   · simp only [ht, if_true]
     exact ⟨h.connected, h.modId, h.unique, h.isLogger, h.isDaemon, h.name, h.pid, by simp, by simp⟩
@@ -330,17 +330,17 @@ theorem minv_subs {cfg : Cfg} {s s' : State} {u : Nat} (h : MInvOn (fun _ => Tru
     · simp only [hx, Bool.false_eq_true, if_false]; exact h.unconn u x trivial h0 hc
 
 /-- the table update of a subscription request keeps the simulation -/
-theorem subCore_sim {cfg : Cfg} {a : A} {s : State} (hs : Sim cfg a s) (u : Nat) (hu0 : u ≠ 0) (t : Int) (add : Bool)
+theorem subCore_sim {cfg : Cfg} {a : A} {s : State} (hs : SimM cfg a s) (u : Nat) (hu0 : u ≠ 0) (t : Int) (add : Bool)
     (m : Module) (hm : s.find u = some m) :
-    Sim cfg (a.upd u (Spec.subUpd cfg t add)) (if add = true then addSubCore cfg s u t else removeSubCore cfg s u t) := by
-  have huid : ∀ x, (Spec.subUpd cfg t add x).uid = x.uid := by
-    intro x; unfold Spec.subUpd; split
+    SimM cfg (a.upd u (Spec.subUpdA cfg t add)) (if add = true then addSubCore cfg s u t else removeSubCore cfg s u t) := by
+  have huid : ∀ x, (Spec.subUpdA cfg t add x).uid = x.uid := by
+    intro x; unfold Spec.subUpdA; split
     · split <;> rfl
     · split
       · rfl
       · split <;> rfl
-  have hal : ∀ x, (Spec.subUpd cfg t add x).alive = x.alive := by
-    intro x; unfold Spec.subUpd; split
+  have hal : ∀ x, (Spec.subUpdA cfg t add x).alive = x.alive := by
+    intro x; unfold Spec.subUpdA; split
     · split <;> rfl
     · split
       · rfl
@@ -476,7 +476,7 @@ theorem pres_survive {s s' : State} (h : Pres s s') (v : Nat) (hf : failOf s v =
 /-- **The acknowledged part of a control frame.**  The table update has been made on both sides (`a0`, `c`), the model
 then runs some nested activity that keeps `Pres` and writes no ACKNOWLEDGE (`c → sL`), then `send_ack`, then a quiet
 continuation; `checkAcks … true` on `a0` for the events of all that returns `a0` unchanged. -/
-theorem ack_part {cfg : Cfg} (hperm : OrdPerm cfg) {a0 : A} {c sL s2 : State} (hs0 : Sim cfg a0 c) (t0 : Top cfg c)
+theorem ack_part {cfg : Cfg} (hperm : OrdPerm cfg) {a0 : A} {c sL s2 : State} (hs0 : SimM cfg a0 c) (t0 : Top cfg c)
     (ls : LogStep cfg c sL) (tL : Top cfg sL) (jL : J sL) (u : Nat) (hu0 : u ≠ 0) (xu : AMod) (hxu : a0.live u = some xu)
     (q : QuietTo cfg (sendAck cfg sL u) s2) (evs : List Ev) (he : s2.out = c.out ++ evs) :
     Spec.checkAcks cfg a0 u true evs = a0 ∧ Nest c (sendAck cfg sL u) := by
@@ -491,7 +491,7 @@ theorem ack_part {cfg : Cfg} (hperm : OrdPerm cfg) {a0 : A} {c sL s2 : State} (h
   have hq3 : dataSends isAck e3 = [] := quiet_ext he3 q.noAck
   have hd : dataSends isAck evs = dataSends isAck e2 := by
     rw [hevs, dataSends_append, dataSends_append, hq1, hq3]; simp
-  have hsL : Sim cfg (Spec.applyDepartures a0 e1) sL := sim_quiet hs0 t0.aopen tL.aopen ls.nest jL e1 he1
+  have hsL : SimM cfg (Spec.applyDepartures a0 e1) sL := sim_quiet hs0 t0.aopen tL.aopen ls.nest jL e1 he1
   have hlive : ∀ v, (Spec.applyDepartures a0 e1).live v = if (Spec.closes e1).contains v then none else a0.live v :=
     Spec.applyDepartures_live a0 e1
   refine ⟨?_, ls.nest.trans (sendAck_nest cfg sL u)⟩
@@ -577,25 +577,25 @@ theorem seg_sub (hs : (rd.h.mtype == cfg.mtSubscribe || rd.h.mtype == cfg.mtResu
     · exact removeSub_J cfg j00 rd.uid ty
     · exact addSub_J cfg j00 rd.uid ty
   have hlive0 : (Spec.afterBuf cfg a rd).live rd.uid = some am := Spec.live_some.mpr ⟨hget, hal⟩
-  have huid : ∀ x, (Spec.subUpd cfg ty add x).uid = x.uid := by
-    intro x; unfold Spec.subUpd; split
+  have huid : ∀ x, (Spec.subUpdA cfg ty add x).uid = x.uid := by
+    intro x; unfold Spec.subUpdA; split
     · split <;> rfl
     · split
       · rfl
       · split <;> rfl
-  have halv : ∀ x, (Spec.subUpd cfg ty add x).alive = x.alive := by
-    intro x; unfold Spec.subUpd; split
+  have halv : ∀ x, (Spec.subUpdA cfg ty add x).alive = x.alive := by
+    intro x; unfold Spec.subUpdA; split
     · split <;> rfl
     · split
       · rfl
       · split <;> rfl
-  have hxu : ((Spec.afterBuf cfg a rd).upd rd.uid (Spec.subUpd cfg ty add)).live rd.uid =
-      some (Spec.subUpd cfg ty add am) := by
+  have hxu : ((Spec.afterBuf cfg a rd).upd rd.uid (Spec.subUpdA cfg ty add)).live rd.uid =
+      some (Spec.subUpdA cfg ty add am) := by
     rw [live_upd _ _ _ _ huid halv, hlive0]
     simp [Spec.get_uid hget]
   obtain ⟨hck, n⟩ := ack_part hperm hs0 t0 ls tL jL rd.uid hu0 _ hxu q evs (by rw [hout]; exact he)
-  have hW : Spec.CoreExt others ((Spec.afterBuf cfg a rd).upd rd.uid (Spec.subUpd cfg ty add))
-      (Spec.checkDepartures cfg (Spec.checkAcks cfg ((Spec.afterBuf cfg a rd).upd rd.uid (Spec.subUpd cfg ty add))
+  have hW : Spec.CoreExt othersCore ((Spec.afterBuf cfg a rd).upd rd.uid (Spec.subUpdA cfg ty add))
+      (Spec.checkDepartures cfg (Spec.checkAcks cfg ((Spec.afterBuf cfg a rd).upd rd.uid (Spec.subUpdA cfg ty add))
         rd.uid true evs) none evs) := by
     rw [hck]
     exact ext_others (dep_ext hs0 t0 n q evs (by rw [hout]; exact he) (Spec.CoreExt.refl [] _) none
